@@ -34,6 +34,7 @@ type Result struct {
 	SimNs         int64                  `json:"sim_ns"`
 	Signature     string                 `json:"signature"`
 	RawHash       string                 `json:"raw_hash"`
+	CanonHash     string                 `json:"canon_hash"`
 	ServeReturned bool                   `json:"serve_returned"`
 	DrainAdvances int                    `json:"drain_advances"`
 	Harness       string                 `json:"harness,omitempty"` // harness-level trouble (never a violation)
@@ -259,11 +260,47 @@ func finish(s *sched) {
 	h := fnv.New64a()
 	raw := sha256.New()
 	for _, e := range w.Events {
+		if e.Kind == "alloc" {
+			continue // a measurement, not part of the history
+		}
 		fmt.Fprintf(h, "%s|%d|%d;", e.Kind, e.Conn, bucket(e.A))
-		fmt.Fprintf(raw, "%d|%d|%s|%s|%d|%d|%d|%s|%x;", e.Step, e.T, e.Actor, e.Kind, e.Conn, e.A, e.B, e.S, e.Bytes)
+		es := e.S
+		if e.Kind == "log" {
+			// level and format string identify the call; the rendered text may depend on
+			// the iteration order of maps inside the code under test (which prefix of
+			// several matching ones is named in a debug line) and is not hashed
+			if parts := strings.SplitN(es, "|", 3); len(parts) == 3 {
+				es = parts[0] + "|" + parts[1]
+			}
+		}
+		fmt.Fprintf(raw, "%d|%d|%s|%s|%d|%d|%d|%s|%x;", e.Step, e.T, e.Actor, e.Kind, e.Conn, e.A, e.B, es, e.Bytes)
 	}
 	res.Signature = fmt.Sprintf("%016x", h.Sum64())
 	res.RawHash = hex.EncodeToString(raw.Sum(nil))
+	// canonical hash: every actor's own sequence, actors in sorted order. Equal whenever
+	// each actor saw the same things in the same order, even if goroutines released by one
+	// scheduler step reached their seams in a different real-time order (GOMAXPROCS > 1).
+	per := map[string]*strings.Builder{}
+	var keys []string
+	for _, e := range w.Events {
+		k := fmt.Sprintf("%s:%d", e.Actor, e.Conn)
+		if e.Actor == "log" || e.Actor == "park" || e.Actor == "sink" || e.Actor == "keychain" || e.Kind == "alloc" {
+			continue // shared seams: their interleaving across connections is not per-actor
+		}
+		b := per[k]
+		if b == nil {
+			b = &strings.Builder{}
+			per[k] = b
+			keys = append(keys, k)
+		}
+		fmt.Fprintf(b, "%d|%d|%s|%d|%d|%s|%x;", e.Step, e.T, e.Kind, e.A, e.B, e.S, e.Bytes)
+	}
+	sort.Strings(keys)
+	canon := sha256.New()
+	for _, k := range keys {
+		fmt.Fprintf(canon, "%s{%s}", k, per[k].String())
+	}
+	res.CanonHash = hex.EncodeToString(canon.Sum(nil))
 }
 
 func bucket(n int64) int {
@@ -635,6 +672,7 @@ func (s *sched) advance(tapeChoice bool) {
 	}
 	s.w.Rec(world.Ev{Actor: "sched", Kind: "advance", A: int64(d)})
 	time.Sleep(d)
+	s.w.ExpireDeadlines()
 }
 
 func (s *sched) apply(e event) {
@@ -927,6 +965,7 @@ func (s *sched) drain() {
 		s.res.DrainAdvances++
 		s.w.Rec(world.Ev{Actor: "sched", Kind: "advance", A: int64(d)})
 		time.Sleep(d)
+		s.w.ExpireDeadlines()
 	}
 	synctest.Wait()
 	select {
